@@ -127,7 +127,8 @@ func is13(id uint16) bool { s, ok := suiteOf(id); return ok && s.Kx == "TLS13" }
 type Cfg struct {
 	CMin, CMax uint16   // client [MinVersion, MaxVersion]
 	SMin, SMax uint16   // server [MinVersion, MaxVersion]
-	Key        string   // fixture of the server leaf key: rsa2048 | p256 | ed-c24
+	Key        string   // fixture(s) of the server leaf key(s): rsa2048 | p256 | ed-c24, several chains joined by "+" in Config.Certificates order
+	GetCert    bool     // the chains are served by a Config.GetCertificate callback (first chain ClientHelloInfo.SupportsCertificate accepts, else the first) and Config.Certificates is empty
 	CS, SS     []uint16 // Config.CipherSuites of client / server (nil = default)
 	Force      bool     // client ForceSuites (set by the generator iff CS holds an id outside the exported suite lists)
 	Prefer     bool     // server PreferServerCipherSuites
@@ -142,8 +143,46 @@ type Cfg struct {
 }
 
 func (c Cfg) key() string {
-	return fmt.Sprintf("%x-%x|%x-%x|%s|%x|%x|%v|%v|%x|%x|%q|%q|%d|%v|%x",
+	k := fmt.Sprintf("%x-%x|%x-%x|%s|%x|%x|%v|%v|%x|%x|%q|%q|%d|%v|%x",
 		c.CMin, c.CMax, c.SMin, c.SMax, c.Key, c.CS, c.SS, c.Force, c.Prefer, c.CCurves, c.SCurves, c.CProtos, c.SProtos, c.Tickets, c.EMS, c.Down)
+	if c.GetCert {
+		k += "|getcert"
+	}
+	return k
+}
+
+// certInfo is what the model knows about one configured chain.
+type certInfo struct {
+	Fixture string
+	Kind    string // rsa | ecdsa | ed25519
+	Curve   uint16 // ecdsa: named curve of the leaf key
+}
+
+func certsOf(key string) []certInfo {
+	var out []certInfo
+	for _, k := range strings.Split(key, "+") {
+		ci := certInfo{Fixture: k, Kind: keyKind(k)}
+		if ci.Kind == "ecdsa" {
+			ci.Curve = 23 // "p256" is the only ECDSA fixture
+		}
+		out = append(out, ci)
+	}
+	return out
+}
+
+// fits reports whether pre-1.3 suite s can be negotiated at version v with the
+// chain ci. With several chains configured the strict reading also applies RFC
+// 8422 §5.3 (below TLS 1.3 the key of an ECDSA certificate must lie on a curve
+// of the client's supported_groups); the loose reading does not (a server with
+// a single chain has nothing to choose and zcrypto then presents it anyway).
+func fits(s suiteInfo, v uint16, ci certInfo, overlap bool, cc, sc []uint16, multi, strict bool) bool {
+	if ok, _ := usable12(s, v, ci.Kind, overlap, strict); !ok {
+		return false
+	}
+	if strict && multi && ci.Kind == "ecdsa" && !(has16(cc, ci.Curve) && has16(sc, ci.Curve)) {
+		return false
+	}
+	return true
 }
 
 func keyKind(k string) string {
@@ -325,7 +364,8 @@ func (m *model) predict(c Cfg) Pred {
 		p.Why = "no-common-version"
 		return p
 	}
-	kind := keyKind(c.Key)
+	certs := certsOf(c.Key)
+	multi := len(certs) > 1
 	doubt := false
 	if p.Version == V13 {
 		for _, s := range p.COffer13 {
@@ -342,60 +382,32 @@ func (m *model) predict(c Cfg) Pred {
 			p.Cands = nil
 			return p
 		}
-		// Config.CipherSuites: order matters "for TLS 1.2 and below" only.
-		p.ExactWhy = "tls13-order-not-documented"
+		// the preference rule is judged in check() against the ClientHello as it
+		// went over the wire (exact13).
+		p.ExactWhy = "tls13"
 	} else {
-		order := p.COffer12
-		other := p.SEnable12
-		if c.Prefer {
-			order, other = p.SEnable12, p.COffer12
-		}
-		for _, id := range order {
-			if !has16(other, id) || has16(p.Cands, id) {
-				continue
-			}
-			s, ok := suiteOf(id)
-			if !ok {
-				continue
-			}
-			if u, _ := usable12(s, p.Version, kind, p.Overlap, true); u {
-				p.Cands = append(p.Cands, id)
-			} else if u2, _ := usable12(s, p.Version, kind, p.Overlap, false); u2 {
-				doubt = true
-			}
-		}
+		p.Cands, doubt = m.cands12(c, &p, certs, multi)
 		if len(p.Cands) == 0 {
 			p.Why = "no-usable-common-suite"
 			if doubt {
+				p.ExactWhy = "no-strictly-usable-candidate"
 				p.Why = "unspecified:ed25519-below-1.2"
+				if multi {
+					p.Why = "unspecified:no-chain-fits-strictly"
+				}
 			}
 			return p
 		}
-		// Documented preference rule (PreferServerCipherSuites): the preferring
-		// side's most preferred suite, "as expressed in the order of elements in
-		// CipherSuites". A default (nil) list has no documented order.
-		gcm, chacha := false, false
-		for _, id := range p.Cands {
-			s, _ := suiteOf(id)
-			gcm = gcm || s.AESGCM
-			chacha = chacha || s.ChaCha
-		}
-		switch {
-		case doubt:
-			p.ExactWhy = "ed25519-below-1.2"
-		case c.Prefer && p.SDefault:
-			p.ExactWhy = "server-default-order"
-		case !c.Prefer && p.CDefault:
-			p.ExactWhy = "client-default-order"
-		case !c.Prefer && gcm && chacha:
-			// zcrypto (like crypto/tls) may move ChaCha20 before AES-GCM when the
-			// server CPU lacks AES hardware: not part of the documented rule.
-			p.ExactWhy = "aesgcm-vs-chacha-cpu-dependent"
-		default:
-			p.Exact = p.Cands[0]
+		if multi {
+			// Config.Certificates: "The first certificate compatible with the peer's
+			// requirements is selected automatically" - the suite preference rule is
+			// then judged among the suites usable with the chain actually presented.
+			p.ExactWhy = "multi-cert"
+		} else {
+			p.Exact, p.ExactWhy = m.exact12(c, &p, p.Cands, doubt)
 		}
 	}
-	if doubt {
+	if doubt && !multi {
 		p.Why = "unspecified:ed25519-below-1.2"
 		return p
 	}
@@ -406,6 +418,161 @@ func (m *model) predict(c Cfg) Pred {
 	p.Must = true
 	p.Why = "must-succeed"
 	return p
+}
+
+// cands12: the pre-1.3 suites both sides enabled that are usable (strict
+// reading) with at least one of the given chains, in the order of the
+// preferring side; doubt: some common suite is usable under the loose reading only.
+func (m *model) cands12(c Cfg, p *Pred, certs []certInfo, multi bool) (cands []uint16, doubt bool) {
+	order := p.COffer12
+	other := p.SEnable12
+	if c.Prefer {
+		order, other = p.SEnable12, p.COffer12
+	}
+	cc, sc := curvesOf(c.CCurves), curvesOf(c.SCurves)
+	for _, id := range order {
+		if !has16(other, id) || has16(cands, id) {
+			continue
+		}
+		s, ok := suiteOf(id)
+		if !ok {
+			continue
+		}
+		strict, loose := false, false
+		for _, ci := range certs {
+			if fits(s, p.Version, ci, p.Overlap, cc, sc, multi, true) {
+				strict = true
+			} else if fits(s, p.Version, ci, p.Overlap, cc, sc, multi, false) {
+				loose = true
+			}
+		}
+		if strict {
+			cands = append(cands, id)
+		} else if loose {
+			doubt = true
+		}
+	}
+	return
+}
+
+// exact12: Documented preference rule (PreferServerCipherSuites): the preferring
+// side's most preferred suite, "as expressed in the order of elements in
+// CipherSuites". A default (nil) list has no documented order.
+func (m *model) exact12(c Cfg, p *Pred, cands []uint16, doubt bool) (exact uint16, why string) {
+	if len(cands) == 0 {
+		if doubt {
+			return 0, "no-strictly-usable-candidate"
+		}
+		return 0, "model-predicts-no-common-suite"
+	}
+	gcm, chacha := false, false
+	for _, id := range cands {
+		s, _ := suiteOf(id)
+		gcm = gcm || s.AESGCM
+		chacha = chacha || s.ChaCha
+	}
+	switch {
+	case doubt:
+		return 0, "ed25519-below-1.2"
+	case c.Prefer && p.SDefault:
+		return 0, "server-default-order"
+	case !c.Prefer && p.CDefault:
+		return 0, "client-default-order"
+	case !c.Prefer && gcm && chacha && aesHW != 1:
+		// zcrypto (like crypto/tls) may move ChaCha20 before AES-GCM when the
+		// server CPU lacks AES hardware (or the check cannot tell): the reordering
+		// of a mixed pre-1.3 list is not part of the documented rule. With AES-GCM
+		// hardware the client's order stands.
+		return 0, "aesgcm-vs-chacha-cpu-dependent"
+	}
+	return cands[0], ""
+}
+
+// deprioritizeAES13: "rearranging adjacent AEAD ciphers such that AES-GCM based
+// ciphers are moved after other AEAD ciphers" - every TLS 1.3 suite is an AEAD
+// suite, so within a TLS 1.3 list all ChaCha20 suites move before all AES-GCM
+// suites, each group keeping its order.
+func deprioritizeAES13(l []uint16) []uint16 {
+	var a, b []uint16
+	for _, id := range l {
+		if s, _ := suiteOf(id); s.AESGCM {
+			b = append(b, id)
+		} else {
+			a = append(a, id)
+		}
+	}
+	return append(a, b...)
+}
+
+func firstCommon(order, other []uint16) uint16 {
+	for _, id := range order {
+		if has16(other, id) {
+			return id
+		}
+	}
+	return 0
+}
+
+// exact13: the documented TLS 1.3 rule (PreferServerCipherSuites doc comment +
+// the comments of the TLS 1.3 server): the server walks the preferring side's
+// list - the server's explicit CipherSuites order when PreferServerCipherSuites,
+// else the client's order as offered in its ClientHello - and takes the first
+// suite the other side supports. Before that, AES-GCM suites are moved behind
+// ChaCha20 when (server preference) "the client does not seem to have hardware
+// support for AES-GCM" = the first valid suite of the ClientHello is not an
+// AES-GCM suite, or (client preference) the server itself lacks
+// AES-GCM hardware. allowed holds every suite that rule can give with what the
+// check knows; a default (nil) server list has no documented order.
+// hw: 1 = AES-GCM hardware present, 0 = absent, -1 = unknown on this architecture.
+func (m *model) exact13(c Cfg, p *Pred, wire []uint16, hw int) (allowed []uint16, why string) {
+	var w13 []uint16
+	for _, id := range wire {
+		if is13(id) {
+			w13 = append(w13, id)
+		}
+	}
+	add := func(id uint16) {
+		if id != 0 && !has16(allowed, id) {
+			allowed = append(allowed, id)
+		}
+	}
+	if !c.Prefer {
+		if hw != 0 {
+			add(firstCommon(w13, p.SEnable13))
+		}
+		if hw != 1 {
+			add(firstCommon(deprioritizeAES13(w13), p.SEnable13))
+		}
+		return allowed, ""
+	}
+	if p.SDefault || !hasAny13(c.SS) {
+		return nil, "server-default-order(1.3)"
+	}
+	// "first valid cipher in the preference list": decidable for the check when the
+	// first id of the ClientHello is a suite of the exported lists; otherwise both
+	// orders are accepted.
+	if len(wire) > 0 && m.exported[wire[0]] {
+		if s, ok := suiteOf(wire[0]); ok {
+			if s.AESGCM {
+				add(firstCommon(p.SEnable13, w13))
+			} else {
+				add(firstCommon(deprioritizeAES13(p.SEnable13), w13))
+			}
+			return allowed, ""
+		}
+	}
+	add(firstCommon(p.SEnable13, w13))
+	add(firstCommon(deprioritizeAES13(p.SEnable13), w13))
+	return allowed, ""
+}
+
+func hasAny13(l []uint16) bool {
+	for _, id := range l {
+		if is13(id) {
+			return true
+		}
+	}
+	return false
 }
 
 func sortedCopy(l []uint16) []uint16 {
